@@ -6,6 +6,7 @@ import (
 	"crypto/sha256"
 	"encoding/hex"
 	"encoding/json"
+	"errors"
 	"fmt"
 	"math/rand"
 	"os"
@@ -143,6 +144,20 @@ func (d *Driver) callPlan(user, plan, method, path string, body *N) Resp {
 	return d.be.Do(method, path, hdrs(user, plan, ct), b)
 }
 
+// seedRefused: the server ANSWERED one of the valid requests that build the reference world with a refusal (or
+// with failed parts). That is an observation about the code under test, not a failure of the driver.
+type seedRefused struct{ msg string }
+
+func (e seedRefused) Error() string { return e.msg }
+
+func refusal(r Resp, format string, a ...any) error {
+	msg := fmt.Sprintf(format, a...)
+	if r.Aborted || r.Crashed || r.Hang || r.Status == 0 {
+		return fmt.Errorf("%s", msg)
+	}
+	return seedRefused{msg}
+}
+
 func (d *Driver) seedCol(c *Col) error {
 	if c.CreatePlan != "" {
 		return d.seedColPlan(c)
@@ -153,13 +168,13 @@ func (d *Driver) seedCol(c *Col) error {
 	}
 	r := d.call(c.User, "POST", ver+"/collections", c.Create)
 	if r.Status != 200 {
-		return fmt.Errorf("seeding %s/%s: create answered %d %s %s", c.User, c.Id, r.Status, ascii(string(r.Body), 200), r.Msg)
+		return refusal(r, "seeding %s/%s: create answered %d %s %s", c.User, c.Id, r.Status, ascii(string(r.Body), 200), r.Msg)
 	}
 	if len(c.Points) > 0 {
 		pts := &N{K: KArr, A: c.Points}
 		r = d.call(c.User, "POST", ver+"/collections/"+c.Id+"/points", Obj("points", pts))
 		if r.Status != 200 || nfail(r.Body) != 0 {
-			return fmt.Errorf("seeding %s/%s: insert answered %d %s %s", c.User, c.Id, r.Status, ascii(string(r.Body), 200), r.Msg)
+			return refusal(r, "seeding %s/%s: insert answered %d %s %s", c.User, c.Id, r.Status, ascii(string(r.Body), 200), r.Msg)
 		}
 	}
 	return nil
@@ -172,13 +187,13 @@ func (d *Driver) seedColPlan(c *Col) error {
 	}
 	r := d.callPlan(c.User, c.CreatePlan, "POST", ver+"/collections", c.Create)
 	if r.Status != 200 {
-		return fmt.Errorf("seeding %s/%s: create answered %d %s %s", c.User, c.Id, r.Status, ascii(string(r.Body), 200), r.Msg)
+		return refusal(r, "seeding %s/%s: create answered %d %s %s", c.User, c.Id, r.Status, ascii(string(r.Body), 200), r.Msg)
 	}
 	if len(c.Points) > 0 {
 		pts := &N{K: KArr, A: c.Points}
 		r = d.callPlan(c.User, c.CreatePlan, "POST", ver+"/collections/"+c.Id+"/points", Obj("points", pts))
 		if r.Status != 200 || nfail(r.Body) != 0 {
-			return fmt.Errorf("seeding %s/%s: insert answered %d %s %s", c.User, c.Id, r.Status, ascii(string(r.Body), 200), r.Msg)
+			return refusal(r, "seeding %s/%s: insert answered %d %s %s", c.User, c.Id, r.Status, ascii(string(r.Body), 200), r.Msg)
 		}
 	}
 	return nil
@@ -518,6 +533,12 @@ func (d *Driver) plan() []*Case {
 
 func (d *Driver) Run() error {
 	if err := d.seedAll(); err != nil {
+		var sr seedRefused
+		if errors.As(err, &sr) {
+			// judged by the trace specification: no action explains a refused valid request
+			d.tw.Emit("SeedRefused", M{"msg": ascii(sr.msg, 400)})
+			return nil
+		}
 		return err
 	}
 	ref, died := d.Digest()
